@@ -44,3 +44,30 @@ Example c11_nonvacuous :
   (match nth_error (threads (run (init 2 true ths) [ParentCancel; Run 1 CAuto])) 1 with
    | Some (TWriter _ _ res) => res = [(7, RClosed)] | _ => False end).
 Proof. vm_compute. repeat split; reflexivity. Qed.
+
+(* synchronous channel (Model/SyncChan.v, replayed against the real channel by h_chan): once ANY Close
+   call has returned - the one that took effect, or one that lost the race and returned while the winner
+   is still inside transport.Close, before the context is cancelled - the closed flag is set, and a write
+   entry point that starts then returns the close error, leaves the lock alone and transmits nothing *)
+From GN Require Import Model.SyncChan Proof.SyncChan_proofs.
+Theorem c11_sync_close_returned_closed : forall ths sched, sc_wf ths = true ->
+  let s := sc_run (sc_init ths) sched in sc_creturned s = true -> sc_closed s = true.
+Proof. exact (fun ths sched H => K_ret _ (kinv_run sched _ (kinv_init ths H))). Qed.
+Print Assumptions c11_sync_close_returned_closed.
+Theorem c11_sync_write_after_close_fails : forall s i c rest res f, KInv s -> sc_creturned s = true ->
+  nth_error (sc_threads s) i = Some (YWriter (c :: rest) YCheck res) ->
+  exists s', sc_step s (YRun i f) = Some s' /\
+    nth_error (sc_threads s') i = Some (YWriter rest YCheck (res ++ [(c, YClosed)])) /\
+    sc_tlog s' = sc_tlog s /\ sc_lock s' = sc_lock s /\ sc_flushed s' = sc_flushed s.
+Proof. exact sync_write_after_close. Qed.
+Print Assumptions c11_sync_write_after_close_fails.
+Theorem c11_sync_returned_is_stable : forall s e s', sc_step s e = Some s' -> sc_creturned s = true -> sc_creturned s' = true.
+Proof. exact creturned_mono. Qed.
+(* non-vacuity: closer 0 wins the flag and is parked INSIDE transport.Close (context not yet cancelled); closer 1
+   loses and returns; the writer that starts now is refused and nothing reaches the transport *)
+Example c11_sync_nonvacuous :
+  let s := sc_run (sc_init [YCloser 5 KCas; YCloser 6 KCas; YWriter [7] YCheck []])
+             [YRun 0 false; YRun 0 false; YRun 0 false; YRun 1 false; YRun 2 false] in
+  sc_creturned s = true /\ sc_ctx s = false /\ sc_tclosed s = 0 /\ sc_tlog s = [] /\
+  nth_error (sc_threads s) 2 = Some (YWriter [] YCheck [(7, YClosed)]).
+Proof. vm_compute. repeat split; reflexivity. Qed.
